@@ -95,6 +95,15 @@ def _loss_val(lossab, extras) -> float:
     return float(_f(lossab[1]) ** 2)
 
 
+def _sp(op: list, k: int, m):
+    """spelling of a mode number: a third of the integer mode arguments are handed over as numpy integers (fixed per
+    op and position, so that a replay repeats it); anything that is not a plain int is passed as it is"""
+    if type(m) is not int:
+        return m
+    h = zlib.crc32(f"{op!r}#{k}".encode()) % 6
+    return np.int64(m) if h == 0 else np.int32(m) if h == 1 else m
+
+
 def apply_op(pool: dict, op: list) -> str:
     """run one op on the implementation; returns 'ok' or the exception class name"""
     name = op[0]
@@ -108,25 +117,25 @@ def apply_op(pool: dict, op: list) -> str:
             _, cid, m1, m2, c, _s, conv, lossab, _rv, _lv, *rest = op
             extras = rest[0] if rest else {}
             refl = extras.get("refl", float(_f(c) ** 2))
-            pool[cid].bs(m1, m2, reflectivity=refl, loss=_loss_val(lossab, extras),
+            pool[cid].bs(_sp(op, 1, m1), _sp(op, 2, m2), reflectivity=refl, loss=_loss_val(lossab, extras),
                          convention=extras.get("conv", conv))
         elif name == "ps":
             _, cid, m, p, lossab, _lv, *rest = op
             extras = rest[0] if rest else {}
             g = GQ.parse(p)
-            pool[cid].ps(m, math.atan2(float(g.im), float(g.re)), loss=_loss_val(lossab, extras))
+            pool[cid].ps(_sp(op, 1, m), math.atan2(float(g.im), float(g.re)), loss=_loss_val(lossab, extras))
         elif name == "loss":
             _, cid, m, _a, b, _lv, *rest = op
             extras = rest[0] if rest else {}
-            pool[cid].loss(m, extras.get("loss", float(_f(b) ** 2)))
+            pool[cid].loss(_sp(op, 1, m), extras.get("loss", float(_f(b) ** 2)))
         elif name == "barrier":
             pool[op[1]].barrier(op[2])
         elif name == "swaps":
-            pool[op[1]].mode_swaps({k: v for k, v in op[2]})
+            pool[op[1]].mode_swaps({_sp(op, 2 * i, k): _sp(op, 2 * i + 1, v) for i, (k, v) in enumerate(op[2])})
         elif name == "herald":
-            pool[op[1]].herald(op[2], op[3], op[4])
+            pool[op[1]].herald(op[2], _sp(op, 3, op[3]), _sp(op, 4, op[4]))
         elif name == "add":
-            pool[op[1]].add(pool[op[2]], op[3], group=op[4])
+            pool[op[1]].add(pool[op[2]], _sp(op, 3, op[3]), group=op[4])
         elif name == "plus":
             # the sum is spelled in every way Python offers (fixed per target name, so that a replay repeats it):
             # `a + b`, `operator.add(a, b)`, and the augmented form on a second name bound to the left operand
